@@ -316,6 +316,8 @@ TABLE = [
     "", " ", "0", "1", "2", "1.0", "1.5", " 1 ", "1e3", "abc", "true", "True", "false", "yes", "no", "on", "off", "t", "y", "n", "null", "None",
     "nan", "inf", "[1, 2]", "[1]", "(1, 2)", "{1, 2}", "a,b", "1,2", '{"a": 1}', "{'a': 1, 'b': 'x'}", "a=1&b=2", "a=1;b=2",
     "2020-01-02", "2020-01-02 00:00:00", "2020-01-02 03:04:05", "2020-01-02T03:04:05", "2020-01-02T03:04:05Z", "2020-01-02T03:04:05+08:00",
+    "2020-01-02 00:00:00.250000", "2020-01-02T00:00:00.000001", "2020-01-02 00:00:01", "2020-01-02 00:01:00", "2020-01-02 01:00:00",
+    "2020-01-02T00:00:00.000", F("1577923200.5"), F("1577923200.0"), 1577923200, 1577923200250, B("2020-01-02 00:00:00.5"),
     "03:04:05", "P1DT2H", "1 02:03:04", "12345678-1234-5678-1234-567812345678", "red", "RED", "ONE", "a", "Some Value",
     B(""), B("1"), B("1.5"), B("abc"), B("true"), B("2020-01-02"), B("[1, 2]"), B('{"a": 1}'), B("red"), {"t": "bytes", "v": "ff"}, {"t": "bytes", "v": "61ff62"},
     {"t": "bytearray", "v": "31"}, {"t": "bytearray", "v": "32"}, {"t": "memoryview", "v": "31"},
@@ -350,6 +352,13 @@ def case_strategy():
         elif tn.startswith("sub:") and tn[4:] in tspec.ORIGINS:
             spec = {"k": "leaf", "o": tn[4:]}
         h = gen.hostile(max_leaves=6)
+        if tn == "date":
+            # date-time strings in which exactly one time component is non-zero (each one alone must block the conversion)
+            timed = st.tuples(st.dates(min_value=dt.date(1971, 1, 1), max_value=dt.date(2999, 1, 1)), st.sampled_from(["T", " "]),
+                              st.sampled_from(["00:00:00", "01:00:00", "00:01:00", "00:00:01", "00:00:00.5", "00:00:00.000001", "00:00:00.000",
+                                               "23:59:59.999999"]), st.sampled_from(["", "", "Z", "+00:00"])).map(
+                lambda t: t[0].isoformat() + t[1] + t[2] + (t[3] if t[1] == "T" else ""))
+            return st.one_of(gen.conforming(spec), timed, timed.map(lambda s_: {"t": "bytes", "v": s_.encode().hex()}), h)
         if spec is None:
             return h
         return st.one_of(gen.conforming(spec), gen.conforming(spec), h)
